@@ -74,6 +74,8 @@ func c31Scenarios(thorough bool) []c31Scenario {
 		{heavy: true, name: "burst filling both buffers", arrivals: burst(2*bufferLen + 5)},
 		{name: "lone packet, upstream failures", arrivals: g(0), failures: true},
 		{heavy: true, name: "three packets, upstream failures", arrivals: g(0, 0, 300*ms), failures: true},
+		// one batch, two write failures inside it (the resend cursor after the second failure)
+		{name: "batch of five, upstream failures", arrivals: burst(5), failures: true},
 	}
 	twice := append(append(burst(2*bufferLen+3), c31Arrival{gap: 3000 * ms}), burst(2*bufferLen+2)...)
 	out = append(out, c31Scenario{heavy: true, name: "two refusal episodes (burst, 3s idle, burst)", arrivals: twice})
